@@ -128,6 +128,19 @@ class CFG:
     def reachable(self):
         return set(self.dom.keys())
 
+    def control_deps(self, x):
+        """Decision blocks (>=2 successors) on which block x is control dependent: x post-dominates
+        one successor of the decision but does not strictly post-dominate the decision itself."""
+        out = []
+        for a, ss in self.succ.items():
+            if len(ss) < 2:
+                continue
+            if a != x and self.postdominates(x, a):
+                continue
+            if any(self.postdominates(x, b) or b == x for b in ss):
+                out.append(a)
+        return out
+
 
 _LOCAL_RE = re.compile(r'_(\d+)\b')
 
